@@ -439,8 +439,12 @@ impl Check for C20 {
             Tier::Thorough => 6_000_000,
         }
     }
-    fn generate(&self, seed: u64, _tier: Tier) -> Sc20 {
+    fn generate(&self, seed: u64, tier: Tier) -> Sc20 {
         let mut r = Rng::new(seed);
+        if tier == Tier::Thorough && r.below(40) == 0 {
+            // mode 9: every truncation offset and every header byte of one sampled message
+            return Sc20 { seed: r.next_u64(), mode: 9, msg_kind: r.below(7) as u8, param: 0 };
+        }
         let mode = match r.below(20) {
             0 | 1 => 0,
             2..=5 => 1,
@@ -462,6 +466,37 @@ impl Check for C20 {
         rep.shape = fnv(&[u64::from(sc.mode), u64::from(sc.msg_kind), sc.param % 4096]);
         if sc.mode == 6 || sc.mode == 7 {
             return self.cli(sc, &mut r, rep);
+        }
+        if sc.mode == 9 {
+            // encoded length of this seed's message, then sweep truncation (mode 1) and header bytes (mode 2)
+            let msg = gen_message(sc.msg_kind, &mut Rng::new(sc.seed));
+            let mut w = SimWrite::new(IoPlan::benign_none());
+            if Codec::new().write_message(&mut w, &msg).is_err() {
+                return rep;
+            }
+            let len = w.sink.len().min(3000) as u64;
+            for cut in 0..len {
+                let r2 = self.execute(&Sc20 { mode: 1, param: cut, ..sc.clone() });
+                rep.execs += 1;
+                if r2.violation.is_some() {
+                    rep.violation = r2.violation;
+                    return rep;
+                }
+            }
+            for i in 0..12u64 {
+                for v in 0..3u64 {
+                    for bit in 0..8u64 {
+                        let r2 = self.execute(&Sc20 { mode: 2, param: i | (v << 8) | (bit << 16), ..sc.clone() });
+                        rep.execs += 1;
+                        if r2.violation.is_some() {
+                            rep.violation = r2.violation;
+                            return rep;
+                        }
+                    }
+                }
+            }
+            rep.probe("all_truncation_offsets_swept", 1);
+            return rep;
         }
         if sc.mode == 8 {
             let mut b = [0u8; 12];
@@ -519,10 +554,10 @@ impl Check for C20 {
                 fault = "truncated";
             }
             2 => {
-                let i = (sc.param % 12) as usize;
+                let i = ((sc.param & 0xFF) % 12) as usize;
                 let old = bytes[i];
-                bytes[i] = match (sc.param >> 8) % 3 {
-                    0 => old ^ (1 << ((sc.param >> 16) % 8)),
+                bytes[i] = match ((sc.param >> 8) & 0xFF) % 3 {
+                    0 => old ^ (1 << (((sc.param >> 16) & 0xFF) % 8)),
                     1 => 0xFF,
                     _ => 0,
                 };
